@@ -267,6 +267,45 @@ def compare(record, exp, dsmax=2047):
     return probs
 
 
+def secure_exec_family(rep, b):
+    probe = os.path.join(b["root"], "probe-sgid")
+    r = subprocess.run(["gcc", "-g", "-O0", "-w", "-I" + b["src"] + "/src", "-I" + b["src"], "-o", probe, os.path.join(c.VERIF, "harness/dsprobe.c"),
+                        b["src"] + "/src/.libs/libsnoopy-no-entrypoint.a", "-lpthread", "-ldl"], capture_output=True, text=True)
+    if r.returncode:
+        raise c.MachineryError("cannot build the set-gid probe: " + r.stderr[-800:])
+    os.chown(probe, 0, 4343)
+    os.chmod(probe, 0o2755)
+    os.chmod(b["root"], 0o755)
+    ini = os.path.join(b["root"], "probe.ini")
+    open(ini, "w").write("[snoopy]\n")
+    asks = [("env", "envname"), ("gid", "x"), ("egid", "x"), ("uid", "x"), ("euid", "x"), ("login", "x"), ("env_all", "x"), ("username", "x"), ("egroup", "x")]
+    inp = "".join("dsv %s 4096 %s\n" % a for a in asks)
+    p_ = subprocess.run([probe, ini], input=inp, capture_output=True, text=True, timeout=60,
+                        env={"PATH": "/usr/bin:/bin", "LOGNAME": "secure-login", "TZ": "UTC", "OTHER": "o"})
+    vals, cur = {}, None
+    for line in p_.stdout.split("\n"):
+        if line.startswith("BEGIN "):
+            cur = line.split()[2]
+        elif line.startswith("VAL ") and cur:
+            vals[cur] = bytes.fromhex(line[4:].strip())
+    if vals.get("egid") != b"4343" or vals.get("gid") != b"0":
+        rep.assumptions.append("the set-gid probe did not get egid 4343 (nosuid mount?): secure-execution family skipped (%r)" % {k: v[:20] for k, v in vals.items()})
+        return 0
+    eg = gname_of(4343)
+    want = {"env": b"value of the probe variable", "login": b"secure-login", "uid": b"0", "euid": b"0", "username": (name_of(0) or "").encode()}
+    if eg:
+        want["egroup"] = eg.encode()
+    for k, w in want.items():
+        if vals.get(k) != w:
+            rep.violation("%s:secure-execution" % k, "in a process started from a set-group-ID binary (secure-execution mode) %%{%s} printed %r, the process state says %r" % (
+                k, (vals.get(k) or b"")[:80], w), dict(state="started set-gid 4343", values={a: repr(v[:60]) for a, v in vals.items()}))
+    ea = vals.get("env_all", b"")
+    for piece in (b"PROBEVAR=value of the probe variable", b"LOGNAME=secure-login", b"OTHER=o"):
+        if piece not in ea:
+            rep.violation("env_all:secure-execution", "in secure-execution mode %%{env_all} lacks %r: %r" % (piece, ea[:120]), dict(state="started set-gid 4343"))
+    return len(asks)
+
+
 def run(tier, seed, replay=None):
     rep = c.Reporter("C12", tier, seed, "model_checking")
     rnd = random.Random(seed)
@@ -376,6 +415,11 @@ def run(tier, seed, replay=None):
     t3, n3 = judge(subn, obs3, "non-thread-safe")
     total += t3
     nontriv += n3
+    # secure-execution mode: the same data sources in a process that was started from a set-group-ID binary (AT_SECURE: libc's secure_getenv()
+    # hides the environment there, getenv() does not). The registry is called directly in a set-gid copy of the probe linked against the production archive.
+    nsec = secure_exec_family(rep, b)
+    total += nsec
+    nontriv += nsec
     rep.cov["traces_validated_against_impl"] = total
     rep.cov["evaluations"] = total * len(FIELDS)
     rep.cov["distinct_nontrivial"] = nontriv
